@@ -39,6 +39,7 @@ def setup(ctx):
         "BaseException-only handler outcomes (CancelledError, SystemExit) are not handler outcomes",
         "scripted middleware deny responses are well-formed header lines",
     ]
+    ctx.require("monitor", "real_middleware_scenarios", 50)
     ctx.require("monitor", "l1_scenarios", 500)
     ctx.require("monitor", "responses_judged", 300)
     ctx.require("monitor", "l2_scenarios", 20)
@@ -178,6 +179,61 @@ def gen_script(rng, data):
     return script
 
 
+def REFUSAL_CLIENT():
+    from vf.gen import certs
+
+    return certs.identity("c01-client", "ec")
+
+
+def real_chain(kind):
+    """The shipped middleware components in the situations where each of them refuses (and one that admits):
+    their refusal lines are written to the client as they are, so what they put into them matters."""
+    from vf.gen import certs
+    from nauyaca.server.middleware import (
+        AccessControl,
+        AccessControlConfig,
+        CertificateAuth,
+        CertificateAuthConfig,
+        CertificateAuthPathRule,
+        MiddlewareChain,
+        RateLimitConfig,
+        RateLimiter,
+    )
+
+    other = certs.identity("c01-other-client", "rsa").fingerprint
+    if kind == "rate0":
+        comps = [RateLimiter(RateLimitConfig(capacity=0, refill_rate=0.001, retry_after=17))]
+    elif kind == "acl-deny":
+        comps = [AccessControl(AccessControlConfig(deny_list=["0.0.0.0/0", "::/0"], default_allow=True))]
+    elif kind == "cert-required":
+        comps = [CertificateAuth(CertificateAuthConfig(path_rules=[CertificateAuthPathRule(prefix="/", require_cert=True)]))]
+    elif kind == "cert-unlisted":
+        comps = [CertificateAuth(CertificateAuthConfig(path_rules=[CertificateAuthPathRule(prefix="/", require_cert=True, allowed_fingerprints={other})]))]
+    else:  # cert-listed: admitted
+        comps = [CertificateAuth(CertificateAuthConfig(path_rules=[CertificateAuthPathRule(prefix="/", require_cert=True, allowed_fingerprints={REFUSAL_CLIENT().fingerprint})]))]
+    return MiddlewareChain(comps)
+
+
+HOSTILE_PATHS = ["/members/plain", "/members/%0D%0A20%20text/gemini%0D%0A%23%20welcome", "/members/%0Aline", "/members/%0Dcr", "/members/" + "a" * 985, "/members/" + "%C3%A9" * 160,
+                 "/members/%ff%fe", "/members/%E2%80%A8sep", "/members/x?q=%0D%0A31%20gemini://evil/", "/members/%00nul", "/members/tab%09", "/" + "b" * 1000]
+
+
+def real_refusal_scenarios():
+    for kind in ("rate0", "acl-deny", "cert-required", "cert-unlisted", "cert-listed"):
+        for path in HOSTILE_PATHS:
+            for proto in ("gemini", "titan"):
+                if proto == "gemini":
+                    data = f"gemini://example.org{path}\r\n".encode()
+                else:
+                    p, _, q = path.partition("?")
+                    data = f"titan://example.org{p};size=3;mime=text/plain\r\nabc".encode()
+                if len(data.split(b"\r\n")[0]) + 2 > 1024:
+                    continue
+                yield {"routing": "spy", "label": f"real-middleware:{kind}", "request": data.hex(), "script": [["feed", data.hex()]],
+                       "handler": {"mode": "sync", "delay": 0, "outcome": "value", "status": 20, "meta": "text/gemini", "body": "ok\n"},
+                       "upload": {"outcome": "value", "delay": 0, "status": 20, "meta": "text/gemini", "body": "stored\n"}, "middleware": None, "real_middleware": kind}
+
+
 def systematic_scenarios():
     """Every combination on a small time grid of the competing events for a valid request
     (second chunk arrival, middleware completion, handler completion, disconnect, timer)."""
@@ -295,6 +351,8 @@ def run_scenario(ctx, scn):
             loop = holder["loop"]
             h = SpyHandler(scn["handler"], log, loop)
             mw = SpyMiddleware(scn["middleware"], log, loop) if scn.get("middleware") else None
+            if scn.get("real_middleware"):
+                mw = real_chain(scn["real_middleware"])
             up = SpyUpload(scn["upload"], log, loop) if scn.get("upload") else None
             holder.update(h=h, mw=mw, up=up)
             return GeminiServerProtocol(h, mw, up)
@@ -309,7 +367,7 @@ def run_scenario(ctx, scn):
     # what getpeername() can report: IPv4 pair, IPv6 4-tuple (with a zone), nothing at all (peer already gone)
     h16 = int(hashlib.sha1(repr(scn.get("request", ""))[:64].encode()).hexdigest()[:4], 16)
     peername = [("192.0.2.7", 40001), ("192.0.2.7", 40001), ("2001:db8::7", 40001, 0, 0), ("fe80::1%eth0", 40001, 0, 2), None][h16 % 5]
-    sim = ServerSim(factory, peername=peername, loop=loop, log=log)
+    sim = ServerSim(factory, peername=peername, loop=loop, log=log, **({"peercert_der": REFUSAL_CLIENT().der} if scn.get("real_middleware") in ("cert-unlisted", "cert-listed") else {}))
     states = set()
     try:
         sim.start()
@@ -343,7 +401,7 @@ def run_scenario(ctx, scn):
             "end_time": loop.time(),
             "handler_calls": len(holder["h"].calls) if holder.get("h") else None,
             "upload_calls": len(holder["up"].calls) if holder.get("up") else None,
-            "mw_calls": len(holder["mw"].calls) if holder.get("mw") else None,
+            "mw_calls": len(holder["mw"].calls) if holder.get("mw") is not None and hasattr(holder["mw"], "calls") else None,
             "dropped_writes": len(t.dropped_writes),
             "writes": len(t.writes),
             "states": states,
@@ -471,6 +529,15 @@ def run_l1(ctx):
         for s in obs["states"]:
             ctx.count("state_tuples", repr(s))
         ctx.case(("sys", scn["label"], sched_sig(obs), obs["stream"][:2], obs["closing"]), True, sample={"label": scn["label"], "script": scn["script"], "stream": obs["stream"][:80]})
+    # the shipped components refusing (or admitting) hostile request lines
+    for i, scn in enumerate(real_refusal_scenarios()):
+        if not ctx.mine(i):
+            continue
+        obs = run_scenario(ctx, scn)
+        judge(ctx, scn, obs)
+        ctx.count("monitor", "l1_scenarios")
+        ctx.count("monitor", "real_middleware_scenarios")
+        ctx.case(("real-mw", scn["label"], scn["request"][:60], obs["stream"][:2], obs["closing"]), True, sample={"label": scn["label"], "request": bytes.fromhex(scn["request"])[:80], "stream": obs["stream"][:80]})
     routings = ["spy"] * 6 + ["single-list", "single-nolist", "loc-catchall", "loc-nocatchall"]
     for i in range(n_random):
         routing = rng.choice(routings)
@@ -585,7 +652,7 @@ def run_l2_scenario(ctx, scn, tlsbench):
             "end_time": loop.time(),
             "handler_calls": len(holder["h"].calls) if holder.get("h") else None,
             "upload_calls": len(holder["up"].calls) if holder.get("up") else None,
-            "mw_calls": len(holder["mw"].calls) if holder.get("mw") else None,
+            "mw_calls": len(holder["mw"].calls) if holder.get("mw") is not None and hasattr(holder["mw"], "calls") else None,
             "dropped_writes": 0,
             "states": set(),
             "kinds": [e["kind"] for e in log],
